@@ -19,6 +19,7 @@ import (
 	"github.com/getlantern/zenodb/common"
 	"github.com/getlantern/zenodb/encoding"
 	"github.com/getlantern/zenodb/metrics"
+	"github.com/getlantern/zenodb/simhook"
 	"github.com/spaolacci/murmur3"
 )
 
@@ -92,6 +93,9 @@ func (f *follower) failed() bool {
 
 func (db *DB) Follow(f *common.Follow, cb func([]byte, wal.Offset) error) {
 	db.Go(func(stop <-chan interface{}) {
+		if simhook.Enabled && !simhook.FirstCall(db) {
+			return
+		}
 		db.processFollowersOnce.Do(func() {
 			db.processFollowers(stop)
 		})
